@@ -8,6 +8,7 @@ package main
 
 import (
 	"bytes"
+	"encoding/base64"
 
 	"github.com/btcsuite/btcd/btcec/v2"
 	"github.com/btcsuite/btcd/btcec/v2/ecdsa"
@@ -306,6 +307,19 @@ func checkC07Pset(t *Toks) string {
 	if v2normDump(q) != v2normDump(p) {
 		return fail("roundtrip.fields", v2fieldsDetail(p))
 	}
+	// the same bytes through NewPsetFromBuffer; the caller then overwrites its buffer (v2parse does) and
+	// appends to every slice field: the parsed packet must still serialize to the bytes it was read from
+	q2, st2 := v2parse(v2unb64(b64))
+	if st2 != "ok" {
+		return fail("roundtrip.buffer-path", st2)
+	}
+	if again, st3 := v2ser(q2); st3 != "ok" || again != b64 {
+		return fail("parse.aliases-input", "scribble")
+	}
+	v2appendAll(q2)
+	if again, st3 := v2ser(q2); st3 != "ok" || again != b64 {
+		return fail("parse.aliases-input", "append")
+	}
 	return "OK"
 }
 
@@ -326,6 +340,11 @@ func checkC07PsetRaw(t *Toks) string {
 		return fail("parse.panic", "other")
 	case "err":
 		return "OK rejected"
+	}
+	// p came through NewPsetFromBuffer and its input buffer has been overwritten since (v2parse): the
+	// same bytes through the base64 entry point must give the same packet
+	if p64, st64 := v2parse64(base64.StdEncoding.EncodeToString(bs)); st64 != "ok" || dumpPsetV2(p64) != dumpPsetV2(p) {
+		return fail("parse.aliases-input", "scribble")
 	}
 	b64, st, verdict := v2serRepeat(p)
 	if verdict != "" {
